@@ -148,6 +148,8 @@ SAMPLES = [
     ("kida", "CH2D2      NH2D2+                 CH2D2+     NH2D2                                         4.670E-10  5.000E-01  3.040E+04 2.00e+00 0.00e+00 logn  4     10    800  3  6599 1  1\n"),
     ("krome", "1,C,CH,,H,C2,,,,10,280,6.590e-11\n"),
     ("krome", "2,H,C2D2,,C,CH2D2,,,,>1.d1,.LE.8d2,4.67e-10*(T32)**(-5.000e-01)*exp(-3.040e+04*invT)\n"),
+    # (a surface species: `#` is naunet's default surface prefix, and Network.write(format="krome") emits such names inside data lines)
+    ("krome", "3,CO,,,#CO,,,,,NONE,NONE,1.0e-17\n"),
     ("leeds", " 4956 C         CH                  C2        H                                       6.59E-11     0.00       0.0    541000  1\n"),
     ("leeds", "   12 GC2D2     GH                  GC2D3                                             1.00E+00     0.00       0.0    0    0 14\n"),
     ("uclchem", "C,CH,NAN,C2,H,NAN,NAN,6.59e-11,0.0,0.0,10,300\n"),
